@@ -71,7 +71,7 @@ def run(chk):
                 inp = [r.choice(alph[tl]) for _ in range(r.range(1, 16))]
             k = r.below(10)
             mode = safety.gen_mode(r) & ~(2 | 32)
-            fn = r.choice("TTTSB")
+            fn = r.choice("TTTSBQ")        # Q: lou_translatePrehyphenated with hyphen arrays (its own reason to return 0: see below)
             if fn == "B" and mode & 4:
                 inp = [0x8000 | (c & 0xff) for c in inp]
             inlen = len(inp)
@@ -83,9 +83,16 @@ def run(chk):
                 inlen, outlen = r.choice([(-1, 10), (3, -1)])
             pres = r.choice([0, 12, 2, 1, 13])
             tfm = safety.gen_typeform(r, len(inp)) if pres & 1 and fn != "B" else None
+            if fn == "Q":
+                pres |= 8           # with inputPos, so that the twin below shows whether the positions ascend
             lines.append(trans.case_line(fn, mode, inp, outlen, inlen=inlen, presence=pres, typeform=tfm))
             # the completeness clause is stated for inputs with no character marked no_translate (0x800)
             meta.append((fn, mode, inp, inlen, outlen, generous if not (tfm and any(t & 0x800 for t in tfm)) else -1))
+            if fn == "Q":
+                # the same call through lou_translate: the prehyphenated variant may return 0 only where this one does, or where
+                # the positions it reports do not ascend (the hyphen marks cannot be mapped then)
+                lines.append(trans.case_line("T", mode, inp, outlen, inlen=inlen, presence=pres, typeform=tfm))
+                meta.append(("T", mode, inp, inlen, outlen, -1))
         # poison and probe: a long homogeneous input, then shorter inputs that end inside a run of the same character. Whatever
         # reads behind the end of a pass input (the caller's array is exactly sized; the internal pass buffers keep what the
         # earlier call left there) sees characters that continue the run
@@ -132,7 +139,7 @@ def run(chk):
             rs += trans.run_cases(exe, tl, lines[-15:], exact=0, env=env, timeout=400)
             lines = lines + lines[-15:]
             meta = meta + meta[-15:]
-        for ln, (fn, mode, inp, inlen, outlen, generous), res in zip(lines, meta, rs):
+        for idx, (ln, (fn, mode, inp, inlen, outlen, generous), res) in enumerate(zip(lines, meta, rs)):
             key = (tl, ln)
             case = dict(table_list=tl, case_line=ln)
             bad = safety.classify(res)
@@ -171,7 +178,16 @@ def run(chk):
                 if res.ret != 0:
                     chk.violation("bad-return-value", "return value %d" % res.ret, dict(case, impl=res.raw))
                     continue
-                if fn != "B" and not invalid:
+                if fn == "Q" and not invalid:
+                    twin = rs[idx + 1] if idx + 1 < len(rs) else None
+                    if twin is not None and not twin.crash and twin.ret == 1:
+                        ip = twin.inputPos[:max(twin.outlen, 0)]
+                        if all(b >= a for a, b in zip([0] + ip, ip)):
+                            chk.violation("unexplained-failure", "lou_translatePrehyphenated returned 0 where lou_translate returns 1 with ascending positions and no message says why",
+                                          dict(case, impl=res.raw, twin=twin.raw))
+                            continue
+                    chk.tally("prehyphenated_failure_explained")
+                elif fn != "B" and not invalid:
                     if compiles and mode & 4:
                         chk.violation("unexplained-failure", "forward translation returned 0 in dotsIO mode with valid arguments and a valid table",
                                       dict(case, impl=res.raw))
